@@ -20,14 +20,12 @@ Lemma gen_nack_bitmap_length p sz seq :
   g_len (g_nack_receiveLog_setReceived p sz seq) = MemBound.rl_step (g_len p) seq /\
   g_len (g_nack_receiveLog_delReceived p sz seq) = MemBound.rl_step (g_len p) seq.
 Proof.
-  unfold g_nack_receiveLog_setReceived, g_nack_receiveLog_delReceived, MemBound.rl_step. cbv zeta.
-  rewrite !g_upd_length. auto.
+  split; gnorm; unfold MemBound.rl_step; rewrite ?g_upd_length; reflexivity.
 Qed.
 
 Lemma gen_report_bitmap_length p sz seq :
   g_len (g_report_receiverStream_setReceived sz p seq) = MemBound.rs_step (g_len p) seq /\
   g_len (g_report_receiverStream_delReceived sz p seq) = MemBound.rs_step (g_len p) seq.
 Proof.
-  unfold g_report_receiverStream_setReceived, g_report_receiverStream_delReceived, MemBound.rs_step. cbv zeta.
-  rewrite !g_upd_length. auto.
+  split; gnorm; unfold MemBound.rs_step; rewrite ?g_upd_length; reflexivity.
 Qed.
